@@ -2,4 +2,7 @@ SPECIFICATION Spec
 CONSTANTS
   NStrata = 8
   Stratum = 0
+  KFull = FALSE
+  KStrata = 1
+  KStratum = 0
 CHECK_DEADLOCK FALSE
